@@ -35,6 +35,10 @@
 // before Done() (os.Exit(3), os.Exit(0), panic), every history starts with "a failing launch,
 // then a healthy one". Each healthy call is judged by the same oracle (its own handler index
 // in marker/predone); calls of failing handlers are outside the statement and only counted.
+// (s) stdio: after Done() the daemon writes to os.Stderr / os.Stdout / the default logger (once at
+// once, three more times after it got a new parent, i.e. the launcher is gone) and reads
+// os.Stdin; the supervisor waits until it has written stdio.<pid> or is dead, then applies the
+// unchanged liveness oracle (key daemon-died-after-Done:stdio@... when it is dead).
 // (g) slow daemons: the handler waits at a gate (file gate.open) between its marker and
 // predone/Done(); the supervisor keeps the gate closed for D = 8 (quick) / 8, 20, 45 s (thorough)
 // after the handler arrived there, then decides - before it creates gate.open - whether the
@@ -77,6 +81,9 @@ type Group struct {
 	Kinds []string `json:"kinds,omitempty"`
 	Steps []int    `json:"steps,omitempty"`
 	Procs int      `json:"gomaxprocs,omitempty"`
+	// Stdio: after Done() every daemon writes to stderr/stdout (also through package log) and
+	// reads stdin, like a real daemon; then its usual duties (ping answer).
+	Stdio bool `json:"daemon_uses_stdio,omitempty"`
 }
 
 func (g Group) kind(i int) string { return kindOf(g.Kinds, i) }
@@ -100,6 +107,9 @@ func (cs Case) shape() string {
 	}
 	for _, g := range cs.Groups {
 		fmt.Fprintf(&sb, "|f=%v:%v:l%d:k%v:s%v:p%d", g.Forced, g.Delays, g.LingerMs, g.Kinds, g.Steps, g.Procs)
+		if g.Stdio {
+			sb.WriteString(":stdio")
+		}
 	}
 	return sb.String()
 }
@@ -197,6 +207,9 @@ func runCase(cs Case, c *drv.Ctx, root string) (vd verdict) {
 		}
 		if len(gr.g.Steps) > 0 {
 			cmd.Env = append(cmd.Env, envSteps+"="+joinInts(gr.g.Steps))
+		}
+		if gr.g.Stdio {
+			cmd.Env = append(cmd.Env, envStdio+"=1")
 		}
 		if gr.g.Procs > 0 {
 			cmd.Env = append(cmd.Env, "GOMAXPROCS="+strconv.Itoa(gr.g.Procs))
@@ -579,10 +592,52 @@ func judgeExited(cs Case, gr *groupRun, c *drv.Ctx) verdict {
 	}
 	// ---- the caller has exited (it was waited for) ----
 	// first look at /proc, then let every daemon prove that it still runs
+	deadKeyAtReturn, deadKeyAfter := "daemon-dead-at-return@"+sched, "daemon-dead-after-caller-exit@"+sched
+	stdioSeen := map[int]string{}
+	if gr.g.Stdio {
+		// The daemons use their standard descriptors after Done(). Wait (causally, not by the
+		// clock) until each of them has either finished doing so or is dead; a daemon that died
+		// is then found by the unchanged liveness checks below, under a key that names the cause.
+		deadKeyAtReturn, deadKeyAfter = "daemon-died-after-Done:stdio@"+sched, "daemon-died-after-Done:stdio@"+sched
+		for _, r := range rep.Calls {
+			if r.Marker == nil || r.Marker.Pid != r.Pid {
+				continue
+			}
+			sf := filepath.Join(gr.dir, fmt.Sprintf("stdio.%d", r.Pid))
+			dead := func() bool { st, same := sameProcess(r.Pid, r.Marker.Start); return !same || !st.alive() }
+			if !waitFor(settleWatchdog, func() bool { return exists(sf) || dead() }) {
+				return verdict{inconclusive: fmt.Sprintf("daemon %d neither finished using its standard descriptors nor died within %v", r.Pid, settleWatchdog)}
+			}
+			var sr StdioRec
+			if readJSON(sf, &sr) {
+				c.Add("daemons_that_used_stdio_after_Done", 1)
+				if sr.Orphaned {
+					c.Add("daemons_that_wrote_stdio_after_launcher_was_gone", 1)
+				}
+				c.SetAdd("daemon_stdin_read", sr.Stdin)
+				if sr.StderrErr != "" || sr.StdoutErr != "" {
+					c.SetAdd("daemon_stdio_write_errors", sr.StderrErr+"|"+sr.StdoutErr)
+				}
+				stdioSeen[r.Pid] = fmt.Sprintf("%+v", sr)
+			} else {
+				stdioSeen[r.Pid] = "no stdio record: the daemon did not get through its writes"
+			}
+		}
+	}
+	fdsOf := func(r CallReport) string {
+		if r.Marker == nil {
+			return ""
+		}
+		return fmt.Sprintf("; daemon's own fds at start-up: %s; stdio: %s", r.Marker.Fds, stdioSeen[r.Pid])
+	}
 	after := make([]pstat, n)
 	launcherAfter := make([]bool, n)
 	for i, r := range rep.Calls {
 		if r.Marker != nil {
+			if fd := stdFds(r.Pid); !strings.Contains(fd, "?") { // informational: what the supervisor sees
+				c.SetAdd("daemon_fds_seen_by_supervisor", fd)
+			}
+			c.SetAdd("daemon_fds_self_reported", r.Marker.Fds)
 			after[i] = readStat(r.Pid)
 			_, launcherAfter[i] = sameProcess(r.Marker.Launcher, r.Marker.LauncherStart)
 		}
@@ -731,7 +786,7 @@ func judgeExited(cs Case, gr *groupRun, c *drv.Ctx) verdict {
 		c.SetAdd("daemon_state_at_return", r.Stat.State)
 		switch {
 		case !r.Stat.alive() || r.Stat.Start != m.Start:
-			return verdict{key: "daemon-dead-at-return@" + sched, expected: expRun, observed: fmt.Sprintf("/proc/%d/stat when Launch returned: %+v (daemon start time %d)", r.Pid, r.Stat, m.Start)}
+			return verdict{key: deadKeyAtReturn, expected: expRun, observed: fmt.Sprintf("/proc/%d/stat when Launch returned: %+v (daemon start time %d)%s", r.Pid, r.Stat, m.Start, fdsOf(r))}
 		case r.Stat.Ppid == rep.CallerPid:
 			return verdict{key: "daemon-child-of-caller@" + sched, expected: expRun, observed: fmt.Sprintf("daemon %d has parent %d = the caller when Launch returned", r.Pid, r.Stat.Ppid)}
 		case r.Stat.Ppid == m.Launcher || r.LauncherAlive:
@@ -747,7 +802,7 @@ func judgeExited(cs Case, gr *groupRun, c *drv.Ctx) verdict {
 		c.SetAdd("daemon_ppid_after_caller_exit", strconv.Itoa(a.Ppid))
 		switch {
 		case !a.alive() || a.Start != m.Start:
-			return verdict{key: "daemon-dead-after-caller-exit@" + sched, expected: expRun, observed: fmt.Sprintf("/proc/%d/stat after the caller exited: %+v (daemon start time %d)", r.Pid, a, m.Start)}
+			return verdict{key: deadKeyAfter, expected: expRun, observed: fmt.Sprintf("/proc/%d/stat after the caller exited: %+v (daemon start time %d)%s", r.Pid, a, m.Start, fdsOf(r))}
 		case a.Ppid == m.Launcher || launcherAfter[i]:
 			return verdict{key: "launcher-alive-after-caller-exit@" + sched, expected: expRun, observed: fmt.Sprintf("after the caller exited: daemon %d parent %d, launcher %d exists=%v", r.Pid, a.Ppid, m.Launcher, launcherAfter[i])}
 		case a.Ppid == rep.CallerPid:
@@ -759,7 +814,7 @@ func judgeExited(cs Case, gr *groupRun, c *drv.Ctx) verdict {
 		if waitFor(settleWatchdog, func() bool { return exists(pong) }) {
 			c.Add("daemon_answered_ping_after_caller_exit", 1)
 		} else if st, same := sameProcess(r.Pid, m.Start); !same || !st.alive() {
-			return verdict{key: "daemon-dead-after-caller-exit@" + sched, expected: expRun, observed: fmt.Sprintf("daemon %d answered no ping and /proc shows %+v", r.Pid, st)}
+			return verdict{key: deadKeyAfter, expected: expRun, observed: fmt.Sprintf("daemon %d answered no ping and /proc shows %+v%s", r.Pid, st, fdsOf(r))}
 		} else {
 			incon = append(incon, fmt.Sprintf("daemon %d alive (state %s) but answered no ping within %v", r.Pid, st.State, settleWatchdog))
 		}
@@ -808,7 +863,7 @@ type mon struct{}
 func (mon) Name() string { return "daemonlaunch" }
 
 func (mon) Level(string) (string, string) {
-	return "exploration", "scenarios = caller processes calling daemon.Launch 1, 2 or 8 times concurrently; schedules: natural timing with the handler sleeping 0/5/200 ms before Done(); forced early Done() (launcher held by the verif pause hook right after cmd.Start() until every daemon of the caller returned from Done()); concurrent calls all natural, all forced, or one forced and one natural caller at the same time; all of these again with a launcher process that lingers 50/300 ms between daemon.Run() returning and os.Exit(0). histories of 6..12 calls in one caller process (sequential or in steps of 1-3 concurrent calls, GOMAXPROCS default or 1) in which handlers that fail before Done() (exit 3, exit 0, panic) are interleaved with healthy ones; slow daemons: the handler waits before Done() at a gate that the supervisor keeps closed for 8 s (quick) or 8/20/45 s (thorough) - Launch must not have returned (no ret file of the caller) at the moment the supervisor decides to open the gate, the seconds being exposure only. Other timings of the three processes are sampled by repetition only. distinct_nontrivial = distinct (schedule class, forced flag and delay vector per caller) shapes"
+	return "exploration", "scenarios = caller processes calling daemon.Launch 1, 2 or 8 times concurrently; schedules: natural timing with the handler sleeping 0/5/200 ms before Done(); forced early Done() (launcher held by the verif pause hook right after cmd.Start() until every daemon of the caller returned from Done()); concurrent calls all natural, all forced, or one forced and one natural caller at the same time; all of these again with a launcher process that lingers 50/300 ms between daemon.Run() returning and os.Exit(0). histories of 6..12 calls in one caller process (sequential or in steps of 1-3 concurrent calls, GOMAXPROCS default or 1) in which handlers that fail before Done() (exit 3, exit 0, panic) are interleaved with healthy ones; daemons that, after Done(), write lines to stderr and stdout (also through package log, once at once and three times after the launcher is gone) and read stdin before their liveness is judged; slow daemons: the handler waits before Done() at a gate that the supervisor keeps closed for 8 s (quick) or 8/20/45 s (thorough) - Launch must not have returned (no ret file of the caller) at the moment the supervisor decides to open the gate, the seconds being exposure only. Other timings of the three processes are sampled by repetition only. distinct_nontrivial = distinct (schedule class, forced flag and delay vector per caller) shapes"
 }
 
 func (mon) Assumptions(string) []string {
@@ -837,6 +892,8 @@ var classes = []string{
 	// histories inside one caller process: handlers that fail before Done() interleaved with
 	// healthy ones, sequential (seq) or in steps of 1-3 concurrent calls (mix); p1 = GOMAXPROCS=1
 	"h-seq", "h-seq-p1", "h-mix", "h-mix-p1",
+	// after Done() the daemon writes to stderr/stdout (also via package log) and reads stdin
+	"s-natural-1", "s-forced-1", "s-natural-8", "s-forced-8", "s-linger-2",
 }
 
 // slow daemons: the handler waits at a gate the supervisor keeps closed for D seconds. One
@@ -886,6 +943,16 @@ func genCase(class string, seed int64, part, run int) Case {
 	case "a", "b":
 		d, _ := strconv.Atoi(strings.TrimPrefix(f[1], "d"))
 		cs.Groups = []Group{{Forced: f[0] == "b", Delays: []int{d}}}
+	case "s":
+		n, _ := strconv.Atoi(f[2])
+		g := Group{Forced: f[1] == "forced", Delays: make([]int, n), Stdio: true}
+		for i := range g.Delays {
+			g.Delays[i] = delayChoices[r.Intn(len(delayChoices))]
+		}
+		if f[1] == "linger" {
+			g.LingerMs = lingerChoices[r.Intn(len(lingerChoices))]
+		}
+		cs.Groups = []Group{g}
 	case "g":
 		cs.GateSecs, _ = strconv.Atoi(f[2])
 		g := Group{Delays: []int{delayChoices[r.Intn(2)]}, Kinds: []string{kindGated}}
